@@ -126,6 +126,7 @@ func c14Extra(r *core.Run) {
 		}
 		o.Site(n, p2cPkg)
 	})
+	c14R9(r) // round 9: rounding direction of the success score (c14_r9.go)
 }
 
 // c14EvalString evaluates a string expression built from constants: a literal,
